@@ -89,6 +89,7 @@ class Executor(ExprMixin, StmtMixin, LoopMixin):
         self.pending: list | None = None
         self.try_stack: list = []
         self.qstack: list = []
+        self.qouter: list = []  # the states in which the enclosing quantifiers were opened (outermost first)
         self.qnames: list = []  # names bound by the enclosing quantifiers / comprehensions (for old())
         self.entry_state = None
         self.spec_mode = False
